@@ -560,6 +560,7 @@ func (l *commitLog) Truncate(offset int64) error {
 		if err := l.segments[i].Delete(); err != nil {
 			return err
 		}
+		verifCrashPoint("truncate.after_delete_segment")
 		deleted++
 	}
 
@@ -574,6 +575,7 @@ func (l *commitLog) Truncate(offset int64) error {
 			if err := seg.Delete(); err != nil {
 				return err
 			}
+			verifCrashPoint("truncate.after_delete_segment")
 			deleted++
 		}
 	} else {
@@ -604,9 +606,11 @@ func (l *commitLog) Truncate(offset int64) error {
 				break
 			}
 		}
+		verifCrashPoint("truncate.after_rewrite")
 		if err = newSegment.Replace(seg); err != nil {
 			return err
 		}
+		verifCrashPoint("truncate.after_replace")
 		segments[idx] = newSegment
 	}
 	activeSegment := segments[len(segments)-1]
@@ -705,6 +709,8 @@ func (l *commitLog) split(oldActiveSegment *segment) error {
 		segment.Delete() // nolint: errcheck
 		return ErrSegmentExists
 	}
+	verifCrashPoint("split.after_create")
+	verifGate("split.after_cas")
 	l.mu.Lock()
 	segments := append(l.segments, segment)
 	l.segments = segments
@@ -750,6 +756,8 @@ func (l *commitLog) Clean() error {
 	if err != nil {
 		return err
 	}
+	verifCrashPoint("clean.before_swap")
+	verifGate("clean.before_swap")
 	l.mu.Lock()
 	newSegments := l.segments
 	if len(newSegments) > len(oldSegments) {
@@ -830,5 +838,6 @@ func (l *commitLog) checkpointHW() error {
 		r    = strings.NewReader(strconv.FormatInt(hw, 10))
 		file = filepath.Join(l.Path, hwFileName)
 	)
+	verifCrashPoint("hw.before_checkpoint")
 	return atomic_file.WriteFile(file, r)
 }
